@@ -275,6 +275,24 @@ CHECKS["C11"] = dict(
     assumptions=["distinct pin positions per class (the library's pin set de-duplicates equal pins)"],
 )
 
+CHECKS["C12"] = dict(
+    stages=[stage("C12", quick=dict(cases=2400, size=100, shards=12), thorough=dict(cases=120000, size=100, shards=16), case_timeout=600)],
+    technique="rapidcheck property-based testing of hyperedge scenes and follow-up transactions with graph-theoretic validity predicates "
+              "(union-find tree test, leaf set, attachment and list consistency) over the router's live objects",
+    level_text="Generated orthogonal scenes of 3-10 separated rectangles, the first 3-8 of them terminals with a centre pin, an initial "
+               "tree over 1-3 free-space junctions, improveHyperedgeRoutesMovingJunctions / ...MovingAddingAndDeletingJunctions on or off, "
+               "registration with the HyperedgeRerouter by junction or not at all, followed by 0-2 transactions that "
+               "move shapes.  After every transaction, over the router's live objects minus this transaction's deleted lists: connectors "
+               "and junctions form one tree (union-find), its shape leaves are exactly the original terminals, no junction is a leaf, "
+               "every connector end is attached (pin or junction), no live connector hangs on a deleted junction, a pin-attached connector has a "
+               "route end on its terminal shape, and objects reported new (and not also deleted) are live.",
+    level_note="Objects in the deleted lists are ignored until the next transaction, as documented.  Not covered: hyperedges registered by terminal list (their connectors do not expose attachments through endpointConnEnds()) and the exact position of route ends at junctions (improvement moves junctions and nudging spreads the displayed ends).",
+    rule="rapidcheck-generated hyperedge scenes; non-trivial = the rerouter or improver changed the topology (non-empty new/deleted lists) "
+         "or the hyperedge was registered for rerouting; distinct by FNV-1a of the case text",
+    min_nontrivial=dict(quick=500, thorough=20000),
+    assumptions=[],
+)
+
 # every check treats a library assertion at a site that is not a listed C15 finding as a violation of its own property
 for _k in CHECKS:
     NOT_APPLICABLE.pop(_k, None)
